@@ -117,7 +117,7 @@ def check(d, all_props=False):
                 res["runs"][p] = "not claimed"
                 continue
             t0 = time.time()
-            rc, out = sh("python3 vx/check.py --property %s --tier quick" % p, cwd="/verif", timeout=3600, env={"VERIF_REPO": scratch})
+            rc, out = sh("python3 vx/check.py --property %s --tier quick" % p, cwd="/verif", timeout=3600, env={"VERIF_REPO": scratch, "VERIF_BUILD": "/tmp/vb_seed", "VERIF_EVIDENCE": "/tmp/ve_seed"})
             lines = [l for l in out.split("\n") if l.startswith(("VIOLATION", "UNDECIDED", "KNOWN-FINDING", "property "))]
             res["runs"][p] = {"exit": rc, "lines": [l[:400] for l in lines][:8], "wall_s": round(time.time() - t0, 1)}
         res["detected"] = any(isinstance(r, dict) and r["exit"] == 1 for r in res["runs"].values())
